@@ -1178,6 +1178,14 @@ def rule_r16(prog, res):
               prog, Result)
 
 
+def rule_r17(prog, res):
+    from . import c05
+    from ..report import Result
+    res.share('R17', 'flat documents: indexes are taken in path order and '
+              'the index map is kept per list (C05-R13)', 'C05',
+              c05._index_order, prog, Result)
+
+
 def run(prog, res, tier):
     res.run_rule(rule_r8, prog, res)
     res.run_rule(rule_r7, prog, res)
@@ -1194,6 +1202,7 @@ def run(prog, res, tier):
     res.run_rule(rule_r14, prog, res)
     res.run_rule(rule_r15, prog, res)
     res.run_rule(rule_r16, prog, res)
+    res.run_rule(rule_r17, prog, res)
     res.run_rule(rule_r4, prog, res, tier)
     res.run_rule(rule_r5, prog, res)
     res.run_rule(rule_r6, prog, res, tier)
@@ -1211,6 +1220,12 @@ _H = 'spyne/protocol/dictdoc/hier.py'
 _MI = 'spyne/protocol/soap/mime.py'
 
 MUTANTS = [
+    Mutant('offset-minutes-optional', 'R3', 'fire',
+           'spyne/model/primitive/datetime.py',
+           in_func(None, "OFFSET_PATTERN = r'(?P<tz_hr>[+-]\\d{2}):(?P<tz_min>"
+                   "\\d{2})'",
+                   "OFFSET_PATTERN = r'(?P<tz_hr>[+-]\\d{2})(?::?(?P<tz_min>"
+                   "\\d{2}))?'"), 'TypeError'),
     Mutant('msgpackrpc-asserts-message-type', 'R15', 'fire', _M,
            in_func('MessagePackRpc.decompose_incoming_envelope',
                    "            if message != MessagePackRpc.REQUEST:\n"
